@@ -17,14 +17,16 @@ INVARIANTS = {
     "C02": "OutcomeExact ReturnedOnlyWithOutcome QuiescentOK",
     "C06": "SkippedNotCounted ErrorsNameNodesOnce FailedNotReplied OneWayNoHandlerWait",
     "C11": "CorrPublishedAtOnce CorrDoneIffReturned CorrValueFromQF TypedGetTotal",
+    "C07": "ErrorsNameNodesOnce FailedNotReplied QFNoFailedNode OutcomeExact",
 }
-ALL_INV = " ".join(INVARIANTS.values())
-WITNESS = {"C01": "W_Ok", "C02": "W_Incomplete", "C06": "W_Ctx", "C11": "W_CorrLevel"}
+ALL_INV = " ".join(sorted(set(" ".join(INVARIANTS.values()).split())))
+WITNESS = {"C01": "W_Ok", "C02": "W_Incomplete", "C06": "W_Ctx", "C11": "W_CorrLevel", "C07": "W_Incomplete"}
 
 # (MaxN of the design-level run, MaxN of the generator, histories replayed at most, shards)
 TIERS = {
-    "quick": {"C01": (2, 3, 0, 4), "C02": (2, 3, 0, 2), "C06": (2, 3, 0, 2), "C11": (2, 2, 0, 4)},
-    "thorough": {"C01": (3, 3, 0, 8), "C02": (3, 4, 0, 8), "C06": (3, 4, 0, 8), "C11": (3, 3, 150000, 16)},
+    "quick": {"C01": (2, 3, 0, 4), "C02": (2, 3, 0, 2), "C06": (2, 3, 0, 2), "C11": (2, 2, 0, 4), "C07": (2, 3, 320, 2)},
+    "thorough": {"C01": (3, 3, 0, 8), "C02": (3, 4, 0, 8), "C06": (3, 4, 0, 8), "C11": (3, 3, 150000, 16),
+                 "C07": (3, 3, 0, 8)},
 }
 
 
@@ -111,13 +113,54 @@ def scenario_lines(scen, t):
     return []
 
 
-def drive_calls(hist, out, stats, seed, maxh, nodes, par=4):
+def drive_calls(hist, out, stats, seed, maxh, nodes, par=4, procs=1):
+    if procs > 1:
+        return drive_calls_parallel(hist, out, stats, seed, maxh, nodes, procs)
     cmd = [os.path.join(BUILD, "drive"), "calls", "-hist", hist, "-out", out, "-stats", stats, "-seed", str(seed),
            "-max", str(maxh), "-par", str(par), "-nodes", str(nodes)]
     p = run(cmd, timeout=3000, check=False)
     if p.returncode != 0:
         raise Infra("driver failed:\n" + p.stdout[-3000:])
     return json.load(open(stats))
+
+
+def drive_calls_parallel(hist, out, stats, seed, maxh, nodes, procs):
+    """Fault scenarios use a fresh environment each (servers are stopped): run several drivers side by side."""
+    import random
+    lines = open(hist).read().splitlines()
+    total = len(lines)
+    random.Random(seed).shuffle(lines)
+    if maxh and len(lines) > maxh:
+        lines = lines[:maxh]
+    parts = [lines[i::procs] for i in range(procs)]
+
+    def one(i):
+        h = "%s.part%d" % (hist, i)
+        with open(h, "w") as f:
+            f.write("\n".join(parts[i]) + "\n")
+        o, st = "%s.part%d" % (out, i), "%s.part%d" % (stats, i)
+        p = run([os.path.join(BUILD, "drive"), "calls", "-hist", h, "-out", o, "-stats", st, "-seed", str(seed), "-max", "0",
+                 "-par", "1", "-nodes", str(nodes)], timeout=3000, check=False)
+        if p.returncode != 0:
+            raise Infra("driver failed (exit %d):\n%s" % (p.returncode, p.stdout[-3000:]))
+        return o, json.load(open(st))
+
+    agg = {"generated": total, "replayed": 0, "distinct_nontrivial": 0, "events": 0, "quiescent_events": 0, "wall_s": 0.0,
+           "exhaustive": len(lines) == total, "samples": []}
+    with ThreadPoolExecutor(max_workers=procs) as ex, open(out, "w") as fo:
+        base = 0
+        for o, st in ex.map(one, range(procs)):
+            for line in open(o):
+                rec = json.loads(line)
+                rec["t"] = rec.get("t", 0) + base
+                fo.write(json.dumps(rec, separators=(",", ":")) + "\n")
+            base += st["replayed"]
+            for k in ("replayed", "distinct_nontrivial", "events", "quiescent_events"):
+                agg[k] += st[k]
+            agg["wall_s"] = max(agg["wall_s"], st["wall_s"])
+            agg["samples"] = agg["samples"] or st["samples"]
+    json.dump(agg, open(stats, "w"))
+    return agg
 
 
 def rerun_scenario(lines, devs, work, nodes):
@@ -168,7 +211,7 @@ def check(prop, tier, seed, replay):
             raise Infra("generator failed:\n" + gout[-3000:])
         # 3. replay against the real library
         trace = os.path.join(work, "trace.ndjson")
-        st = drive_calls(hist, trace, os.path.join(work, "stats.json"), seed, maxh, nodes)
+        st = drive_calls(hist, trace, os.path.join(work, "stats.json"), seed, maxh, nodes, procs=8 if prop == "C07" else 1)
         log("replayed %d of %d generated histories (%d events) in %.1fs" %
             (st["replayed"], st["generated"], st["events"], st["wall_s"]))
         # 4. validate the recorded traces
@@ -225,7 +268,8 @@ def check(prop, tier, seed, replay):
             "deviations_enabled": devs, "known_findings_reported": known_lines,
             "quiescent_events": st["quiescent_events"],
         }
-        write_evidence(prop, tier, seed, "model_checking", cov, time.time() - t0, violations,
+        write_evidence(prop, tier, seed, "fault_enumeration" if prop == "C07" else "model_checking", cov,
+                       time.time() - t0, violations,
                        ["gRPC, HTTP/2, the Go runtime and protobuf are environment",
                         "environment acts in lock-step (only when the library is quiescent); races between an "
                         "environment action and a library step belong to the transport checks",
